@@ -228,16 +228,333 @@ def body_sixnode(env):
                        r.temp['duct_surf'][0, s_, i], tol=1e-10, key='sixnode_not_equivariant')
 
 
+# ================================================================== core rotation
+CMODS = [cm, rm, mf]
+_NORMALS = {}
+
+
+def _side_normals():
+    """Outward direction of hex side s = direction from the centre assembly of a full 7-position core to
+    its neighbour across side s (published assembly coordinates + adjacency of the real Core)."""
+    if 'n' not in _NORMALS:
+        r = SC.build_reactor('seven-a2')
+        xy = r.core.map_assembly_xy()
+        ns = []
+        for s_ in range(6):
+            nb = int(r.core.asm_adj[0][s_]) - 1
+            v = xy[nb] - xy[0]
+            ns.append(v / np.hypot(*v))
+        _NORMALS['n'] = np.array(ns)
+    return _NORMALS['n']
+
+
+def assembly_xy(c):
+    """Published assembly coordinates.  Core.map_assembly_xy raises IndexError when the centre position is empty (it
+    starts counting at 1); for such cores the coordinates of the same grid positions are read from a fully loaded core
+    of the same ring count through the published position map (Core.asm_map)."""
+    try:
+        return np.asarray(c.map_assembly_xy(), dtype=float)
+    except IndexError:
+        full = SC.build_reactor({2: 'seven-a2', 3: 'nineteen-a2'}[int(c.n_ring)]).core
+        fxy = np.asarray(full.map_assembly_xy(), dtype=float)
+        xy = np.zeros((c.n_asm, 2))
+        for a in range(c.n_asm):
+            row, col = [int(x[0]) for x in np.where(c.asm_map == a + 1)]
+            xy[a] = fxy[int(full.asm_map[row, col]) - 1]
+        return xy
+
+
+def gap_cell_coordinates(env, r, tag):
+    """Coordinates of every (assembly, perimeter position) incidence of the gap mesh: edge cell j of n on side s
+    sits on the mid-line of the gap at the fraction (j + 1/2) / n of the side, walking from the corner shared
+    with side s-1 to the corner shared with side s+1; the trailing corner cell sits at the hexagon vertex between
+    sides s and s+1.  Returns (xy per gap cell, incidence table (a, i) -> (side, j), assembly xy)."""
+    c = r.core
+    N = _side_normals()
+    xy = assembly_xy(c)
+    adj = c._asm_sc_adj
+    scps = c._geom_params['sc_per_side']
+    hs, pitch = float(c.hex_side_len), float(c.asm_pitch)
+    for a in range(c.n_asm):
+        for s_ in range(6):
+            nb = int(c.asm_adj[a][s_]) - 1
+            if nb >= 0:
+                v = xy[nb] - xy[a]
+                env.holds('%s: neighbour across side %d of assembly %d lies in the direction of that side' % (tag, s_, a),
+                          float(np.hypot(*(v / np.hypot(*v) - N[s_]))) < 1e-9, key='core_tables_not_equivariant')
+    inc = {}
+    pts = {}
+    for a in range(c.n_asm):
+        i = 0
+        for s_ in range(6):
+            n = int(scps[a, s_])
+            t = N[(s_ + 1) % 6] - N[(s_ - 1) % 6]
+            t = t / np.hypot(*t)
+            for j in range(n + 1):
+                if j < n:
+                    pt = xy[a] + 0.5 * pitch * N[s_] + t * (-0.5 * hs + hs * (j + 0.5) / n)
+                else:
+                    v = N[s_] + N[(s_ + 1) % 6]
+                    pt = xy[a] + pitch / np.sqrt(3.0) * v / np.hypot(*v)
+                inc[(a, i)] = (s_, j if j < n else 'c', n)
+                pts.setdefault(int(adj[a, i]) - 1, []).append(pt)
+                i += 1
+        env.holds('%s: assembly %d has sum(cells per side) + 6 perimeter positions' % (tag, a), int(np.count_nonzero(adj[a])) == i)
+    gxy = np.zeros((c.n_sc, 2))
+    ok = sorted(pts) == list(range(c.n_sc))
+    env.holds('%s: every gap cell occurs on some assembly perimeter' % tag, ok)
+    if not ok:
+        env.stop()
+    for f in range(c.n_sc):
+        P = np.array(pts[f])
+        gxy[f] = P[0]
+        env.holds('%s: gap cell %d sits at the same place seen from each of its assemblies' % (tag, f + 1),
+                  bool(np.all(np.hypot(P[:, 0] - P[0, 0], P[:, 1] - P[0, 1]) < 1e-6 * pitch)), key='core_tables_not_equivariant')
+    return gxy, inc, xy
+
+
+def _core_maps(env, r, r2):
+    """Permutations of assemblies, gap cells and (assembly, position) incidences induced by the 60-degree turn."""
+    g1, inc1, xy1 = gap_cell_coordinates(env, r, 'layout')
+    g2, inc2, xy2 = gap_cell_coordinates(env, r2, 'turned layout')
+    tol = 1e-6 * float(r.core.asm_pitch)
+    M, rho, k_used = None, None, None
+    for k in (1, 5):
+        rho = perm_from_xy(xy1, xy2, _rot(k), tol)
+        if rho is not None:
+            M, k_used = _rot(k), k
+            break
+    env.holds('turning the loading pattern by one position per ring side turns the published assembly coordinates by 60 degrees',
+              rho is not None, key='core_tables_not_equivariant')
+    if rho is None:
+        env.stop()
+    sigma = perm_from_xy(g1, g2, M, tol)
+    env.holds('the gap cells of the turned core are the turned gap cells', sigma is not None, key='core_tables_not_equivariant')
+    if sigma is None:
+        env.stop()
+    c1, c2 = r.core, r2.core
+    imap = {}
+    shifts = set()
+    for (a, i), (s_, j, n) in inc1.items():
+        f2 = sigma[int(c1._asm_sc_adj[a, i]) - 1]
+        a2 = rho[a]
+        loc = [ii for ii in range(c2._asm_sc_adj.shape[1]) if int(c2._asm_sc_adj[a2, ii]) - 1 == f2]
+        env.holds('assembly %d position %d: the turned gap cell borders the turned assembly exactly once' % (a, i), len(loc) == 1,
+                  key='core_tables_not_equivariant')
+        if len(loc) != 1:
+            env.stop()
+        imap[(a, i)] = (a2, loc[0])
+        s2, j2, n2 = inc2[(a2, loc[0])]
+        shifts.add((s2 - s_) % 6)
+        env.holds('assembly %d position %d keeps its place along the side (cell %s of %d)' % (a, i, j, n), (j2, n2) == (j, n),
+                  key='core_tables_not_equivariant')
+    env.holds('every hex side moves on by the same number of sides', len(shifts) == 1, key='core_tables_not_equivariant')
+    return rho, sigma, imap, (shifts.pop() if len(shifts) == 1 else None)
+
+
+def _nb_slot(c2, f2, g2):
+    return [jj for jj in range(3) if int(c2._sc_adj[f2, jj]) - 1 == g2]
+
+
+def body_core_tables(env):
+    """Index and geometry tables of the turned core = turned tables (no symbolic dimension: enumeration)."""
+    lay = SC.LAYOUTS[env.params['layout']]
+    model = env.params.get('model', 'flow')
+    r = SC.build_reactor(env.params['layout'], gap_model=model)
+    r2 = SC.build_reactor(SC.rotate_layout(lay), gap_model=model)
+    rho, sigma, imap, shift = _core_maps(env, r, r2)
+    c1, c2 = r.core, r2.core
+
+    def close(x, y):
+        return abs(float(x) - float(y)) <= 1e-11 * max(abs(float(x)), abs(float(y)), 1e-300)
+    for f in range(c1.n_sc):
+        f2 = sigma[f]
+        env.holds('gap cell %d keeps its type' % (f + 1), int(c1._sc_types[f]) == int(c2._sc_types[f2]), key='core_tables_not_equivariant')
+        nb1 = sorted(sigma[int(x) - 1] for x in c1._sc_adj[f] if x > 0)
+        nb2 = sorted(int(x) - 1 for x in c2._sc_adj[f2] if x > 0)
+        env.holds('gap cell %d keeps its neighbours' % (f + 1), nb1 == nb2, key='core_tables_not_equivariant')
+        for nm in ('area', 'de'):
+            if nm in c1.gap_params:
+                env.holds('gap cell %d keeps its %s' % (f + 1, nm), close(np.ravel(c1.gap_params[nm])[f], np.ravel(c2.gap_params[nm])[f2]),
+                          key='core_tables_not_equivariant')
+        env.holds('gap cell %d keeps its flow rate' % (f + 1), close(c1._sc_mfr[f], c2._sc_mfr[f2]), key='core_tables_not_equivariant')
+        for j in range(3):
+            g = int(c1._sc_adj[f, j]) - 1
+            if g >= 0:
+                slot = _nb_slot(c2, f2, sigma[g])
+                if len(slot) == 1:
+                    env.holds('gap cells %d,%d keep their conduction resistance' % (f + 1, g + 1),
+                              close(c1._Rcond[f, j], c2._Rcond[f2, slot[0]]), key='core_tables_not_equivariant')
+    for (a, i), (a2, i2) in imap.items():
+        env.holds('assembly %d position %d keeps its contact length' % (a, i),
+                  close(c1.gap_params['asm wp'][a, i], c2.gap_params['asm wp'][a2, i2]), key='core_tables_not_equivariant')
+    for a in range(c1.n_asm):
+        t1, t2 = r.assemblies[a], r2.assemblies[rho[a]]
+        env.holds('assembly %d keeps its type and flow rate' % a, t1.name == t2.name and close(t1.flow_rate, t2.flow_rate),
+                  key='core_tables_not_equivariant')
+
+
+def _turned_core(env, c, r2, sigma, imap, sym_wp):
+    """Copy of the turned real core whose state is the state of `c` moved by the permutations."""
+    real2 = r2.core
+    c2 = copy.copy(real2)
+    obj = env.mode == 'sym'
+
+    def conv(a):
+        return a if obj else a.astype(float)
+    c2.coolant_gap_temp = _permuted(c.coolant_gap_temp, sigma)
+    c2.coolant_gap_params = dict(real2.coolant_gap_params)
+    c2.coolant_gap_params['htc'] = _permuted(c.coolant_gap_params['htc'], sigma)
+    c2.gap_coolant = c.gap_coolant
+    c2._update_coolant_gap_params = lambda *a, **k: None
+    c2._sc_mfr = _permuted(c._sc_mfr, sigma)
+    c2._inv_sc_mfr = _permuted(c._inv_sc_mfr, sigma)
+    c2.d_gap = c.d_gap
+    L = np.full(real2.gap_params['L'].shape, 0.0, dtype=object)
+    R = np.full(L.shape, 0.0, dtype=object)
+    for f in range(c.n_sc):
+        for j in range(3):
+            g = int(c._sc_adj[f, j]) - 1
+            if g >= 0:
+                slot = _nb_slot(real2, sigma[f], sigma[g])
+                L[sigma[f], slot[0]] = c.gap_params['L'][f, j]
+                R[sigma[f], slot[0]] = c._Rcond[f, j]
+    c2.gap_params = dict(real2.gap_params)
+    c2.gap_params['L'] = conv(L)
+    c2._Rcond = conv(R)
+    if sym_wp:
+        wp = np.full(real2._asm_sc_adj.shape, 0.0, dtype=object)
+        for (a, i), (a2, i2) in imap.items():
+            wp[a2, i2] = c.gap_params['asm wp'][a, i]
+        c2.gap_params['asm wp'] = conv(wp)
+    model = c2.model
+    c2.model = 'flow' if model is None else model
+    c2._make_conv_mask()
+    c2.model = model
+    c2.ebal = {'asm': (np.full(real2._asm_sc_adj.shape, 0.0, dtype=object) if obj else np.zeros(real2._asm_sc_adj.shape))}
+    return c2
+
+
+def body_core_step(env):
+    """One real gap step (flow / no-flow / duct-average) on a core and on the turned core with the turned state."""
+    lay = SC.LAYOUTS[env.params['layout']]
+    model = env.params.get('model', 'flow')
+    r = SC.build_reactor(env.params['layout'], gap_model=model)
+    r2 = SC.build_reactor(SC.rotate_layout(lay), gap_model=model)
+    rho, sigma, imap, shift = _core_maps(env, r, r2)
+    with env.patch(CMODS):
+        c = SC.sym_core(env, r)
+        c2 = _turned_core(env, c, r2, sigma, imap, True)
+        obj = env.mode == 'sym'
+        adj = r.core._asm_sc_adj
+        td = np.full(adj.shape, 0.0, dtype=object) if obj else np.zeros(adj.shape)
+        td2 = np.full(r2.core._asm_sc_adj.shape, 0.0, dtype=object) if obj else np.zeros(r2.core._asm_sc_adj.shape)
+        for (a, i), (a2, i2) in sorted(imap.items()):
+            td[a, i] = env.real('Tduct_%d_%d' % (a, i), lo=200, hi=3000)
+            td2[a2, i2] = td[a, i]
+        dz = env.pos('dz', hi=1)
+        c.calculate_gap_temperatures(dz, td)
+        c2.calculate_gap_temperatures(dz, td2)
+        for f in range(c.n_sc):
+            env.eq('%s model: new temperature of gap cell %d turns with the core' % (model, f + 1), c2.coolant_gap_temp[sigma[f]],
+                   c.coolant_gap_temp[f], tol=1e-10, key='gap_not_equivariant')
+        for (a, i), (a2, i2) in sorted(imap.items()):
+            env.eq('%s model: heat tallied for assembly %d position %d turns with the core' % (model, a, i), c2.ebal['asm'][a2, i2],
+                   c.ebal['asm'][a, i], tol=1e-10, key='gap_not_equivariant')
+
+
+def body_core_axial(env):
+    """Real Reactor.axial_step (duct -> gap map, gap step, gap -> duct maps weighted by the film coefficient) on both cores
+    with stub assemblies carrying symbolic outer-duct temperatures: what every assembly is handed turns with the core
+    (the maps are float matrices: 1e-9 relative tolerance, linear arithmetic)."""
+    lay = SC.LAYOUTS[env.params['layout']]
+    r = SC.build_reactor(env.params['layout'])
+    r2 = SC.build_reactor(SC.rotate_layout(lay))
+    rho, sigma, imap, shift = _core_maps(env, r, r2)
+    with env.patch(CMODS):
+        c = SC.sym_core(env, r, sym_wp=False)
+        n = c.n_sc
+        c.coolant_gap_params['htc'] = np.array([3.0e4 + 137.0 * i for i in range(n)])
+        env.stub('film coefficients concrete (distinct per gap cell) so that the tolerance query is linear in the temperatures')
+        c2 = _turned_core(env, c, r2, sigma, imap, False)
+        recs = ({}, {})
+        seen = {}
+        Ts = {}
+        reacs = []
+        for which, (rr, cc) in enumerate(((r, c), (r2, c2))):
+            asms = []
+            for a, asm in enumerate(rr.assemblies):
+                reg = asm.active_region
+                ncell = reg.temp['duct_surf'].shape[-1]
+                if which == 0:
+                    ts = np.empty(ncell, dtype=object)
+                    for k in range(ncell):
+                        ts[k] = env.real('Tsurf_%d_%d' % (a, k), lo=200, hi=3000)
+                    if env.mode == 'replay':
+                        ts = ts.astype(float)
+                    Ts[a] = ts
+                else:
+                    a1 = rho.index(a)
+                    src = Ts[a1]
+                    per = len(src) // 6
+                    ts = np.empty_like(src)
+                    for k in range(len(src)):
+                        ts[(k + shift * per) % len(src)] = src[k]
+
+                def calc(dz_, gap_temp, gap_htc, adiabatic=False, ebal=False, _a=a, _w=which):
+                    recs[_w][_a] = (gap_temp, gap_htc)
+                asms.append(StubSelf(duct_outer_surf_temp=ts, active_region=StubSelf(_map=reg._map), calculate=calc,
+                                     check_region_update=lambda z: False, write=lambda *x, **k: None))
+            rx = copy.copy(rr)
+            rx.core = cc
+            rx.assemblies = asms
+            rx._is_adiabatic = False
+            rx._options = dict(rr._options)
+            rx._options['dump'] = dict(rr._options['dump'], any=False)
+            rx._options['ebal'] = True
+            rx.z = np.array([0.0, 1.0, 2.0])
+            orig = cc.calculate_gap_temperatures
+
+            def spy(dz_, tds, _w=which, _o=orig):
+                seen[_w] = [list(x) for x in tds]
+                return _o(dz_, tds)
+            cc.calculate_gap_temperatures = spy
+            rm.Reactor.axial_step(rx, 1.0, 1.0, 0)
+            reacs.append(rx)
+        scale = 3000.0
+        for a in range(len(r.assemblies)):
+            gt1, gh1 = recs[0][a]
+            gt2, gh2 = recs[1][rho[a]]
+            per = len(gt1) // 6
+            for k in range(len(gt1)):
+                k2 = (k + shift * per) % len(gt1)
+                env.le('assembly %d duct cell %d: gap temperature handed over turns with the core (hi)' % (a, k), gt2[k2] - gt1[k], 1e-9 * scale,
+                       key='axial_step_not_equivariant')
+                env.ge('assembly %d duct cell %d: gap temperature handed over turns with the core (lo)' % (a, k), gt2[k2] - gt1[k], -1e-9 * scale,
+                       key='axial_step_not_equivariant')
+                env.holds('assembly %d duct cell %d: film coefficient handed over turns with the core' % (a, k),
+                          abs(float(gh2[k2]) - float(gh1[k])) <= 1e-9 * abs(float(gh1[k])), key='axial_step_not_equivariant')
+        # the duct temperatures the gap step was given (duct -> gap map of every assembly) turn with the core; the gap step
+        # itself is covered exactly by the core-step instances
+        td1, td2 = seen[0], seen[1]
+        for (a, i), (a2, i2) in sorted(imap.items()):
+            env.le('assembly %d position %d: duct temperature mapped onto the gap mesh turns with the core (hi)' % (a, i),
+                   td2[a2][i2] - td1[a][i], 1e-9 * scale, key='axial_step_not_equivariant')
+            env.ge('assembly %d position %d: duct temperature mapped onto the gap mesh turns with the core (lo)' % (a, i),
+                   td2[a2][i2] - td1[a][i], -1e-9 * scale, key='axial_step_not_equivariant')
+
+
 def instances(tier):
     inst = []
+    W = ('clockwise', 'counterclockwise')
     if tier == 'quick':
-        combos = [(2, 1, 'clockwise', [1, 2, 3, 4, 5]), (2, 1, 'counterclockwise', [1]), (2, 2, 'clockwise', [1]), (3, 1, 'counterclockwise', [2])]
-        mirrors = [(2, 1, 'clockwise', 0), (2, 2, 'counterclockwise', 0), (3, 1, 'clockwise', 1)]
+        combos = [(n, d, w, [1, 2, 3, 4, 5]) for n in (2, 3) for d in (1, 2) for w in W] + [(2, 3, 'clockwise', [1]), (4, 1, 'counterclockwise', [1])]
+        mirrors = [(n, d, w, k) for n in (2, 3) for d in (1, 2) for w in W for k in (0, 1)]
     else:
-        combos = [(n, d, w, [1, 2, 3, 4, 5]) for n in (2, 3) for d in (1, 2, 3) for w in ('clockwise', 'counterclockwise')] + \
-                 [(4, 1, 'clockwise', [1, 5]), (4, 2, 'counterclockwise', [1])]
-        mirrors = [(n, d, w, k) for n in (2, 3) for d in (1, 2) for w in ('clockwise', 'counterclockwise') for k in (0, 1, 2)] + \
-                  [(4, 1, 'clockwise', 0)]
+        combos = [(n, d, w, [1, 2, 3, 4, 5]) for n in (2, 3, 4) for d in (1, 2, 3) for w in W] + \
+                 [(n, d, w, [1, 4]) for n in (5, 6) for d in (1, 2) for w in W]
+        mirrors = [(n, d, w, k) for n in (2, 3, 4) for d in (1, 2, 3) for w in W for k in (0, 1, 2, 3, 4, 5)] + \
+                  [(n, 1, w, 0) for n in (5, 6) for w in W]
     for n, d, w, ks in combos:
         for k in ks:
             inst.append(dict(label='rodded-rotation[rings=%d,ducts=%d,%s,k=%d]' % (n, d, w, k), body=body_rodded,
@@ -248,6 +565,16 @@ def instances(tier):
     for k in ((1, 3) if tier == 'quick' else (1, 2, 3, 4, 5)):
         inst.append(dict(label='sixnode-rotation[k=%d]' % k, body=body_sixnode, params={'k': k}))
     inst.append(dict(label='sixnode-mirror', body=body_sixnode, params={'k': 0, 'mirror': True}))
+    lays = ['three-a2-a3-ur', 'six-hole', 'seven-mixed', 'ring-no-centre'] + (['three-a3-dd-u6', 'two-a2-a3', 'nineteen-sparse'] if tier == 'thorough' else [])
+    for l in lays:
+        for model in ('flow', 'no_flow', 'duct_average'):
+            if tier == 'quick' and model != 'flow' and l != 'three-a2-a3-ur':
+                continue
+            inst.append(dict(label='core-tables[%s,%s]' % (l, model), body=body_core_tables, params={'layout': l, 'model': model},
+                             check_vacuity=False))
+            inst.append(dict(label='core-step[%s,%s]' % (l, model), body=body_core_step, params={'layout': l, 'model': model},
+                             timeout_ms=240000, max_depth=4000, max_paths=8))
+        inst.append(dict(label='core-axial-step[%s]' % l, body=body_core_axial, params={'layout': l}, timeout_ms=240000))
     return inst
 
 
@@ -259,11 +586,19 @@ def main():
         explanation=('Self-composition: two copies of a region with shared symbolic derived state; copy 2 carries the fields and powers '
                      'moved by the permutation induced by the published centroid coordinates for a rotation / the mirror image (mirror: '
                      'index tables and swirl donor column from a region really constructed with the opposite wire direction).  The real '
-                     'sub-steps run on both; "result of copy 2 = moved result of copy 1" is an SMT query per cell.'),
-        bounds={'rings': '2..3 (quick) / 2..4', 'ducts': '1..2 (quick) / 1..3', 'rotations': 'k = 1..5', 'mirror': 'x-axis, composed with rotations',
+                     'sub-steps run on both; "result of copy 2 = moved result of copy 1" is an SMT query per cell.  Core: two real Reactors (a '
+                     'loading pattern and the pattern turned by 60 degrees); assembly, gap-cell and incidence permutations from coordinates; the '
+                     'symbolic state of the turned core is the moved state of the first; one real gap step per gap model (exact) and one real '
+                     'Reactor.axial_step with stub assemblies (float maps: 1e-9 relative, linear) run on both.  The index / geometry tables of '
+                     'the turned core are compared directly (enumeration, no symbolic dimension).'),
+        bounds={'rings': '2..4 (quick) / 2..6', 'ducts': '1..3', 'rotations': 'k = 1..5', 'mirror': 'x-axis, composed with rotations',
+                'core layouts': '3, 3 (no centre), 6 (one hole) and 7 positions (quick) / + 2, 3 (double duct, six-node) and a sparse 19-position grid; gap models flow, no_flow, duct_average',
                 'fields': 'all temperatures, pin/coolant/duct powers, gap temperatures and film coefficients symbolic'},
         outside=['composition of the sub-steps into RoddedRegion.calculate (C01 calculate() instances)', 'temperature-dependent properties '
-                 '(evaluated at bundle averages, which are invariant under permutations)', 'bundles of more than 4 rings'],
+                 '(evaluated at bundle averages, which are invariant under permutations)', 'bundles of more than 6 rings', 'core: whole 19/37-position loadings; the '
+                 'gap-cell coordinates are computed by the harness from the published assembly coordinates, adjacency and cells per side (no coordinates '
+                 'are published for gap cells)', 'core: assembly results given equivariant gap inputs follow from the region instances (each assembly '
+                 'is turned in place: rotation instances)'],
         level_assumptions=['correlated parameters depend on the subchannel type only (C12)'])
 
 
